@@ -38,6 +38,9 @@ type Config struct {
 	IssuerFn                                                           func(bool) (op.IssuerFromRequest, error)
 	UserCode                                                           *op.UserCodeConfig
 	DeviceLifetime, DevicePoll                                         time.Duration // 0 => 5 min / 5 s
+	// WrapStorage (deep3-C04): the provider is built on WrapStorage(storage) - a wrapper that gates / alters single storage calls
+	// (concurrent schedules, a strict DeleteAuthRequest); nil = the reference storage itself
+	WrapStorage func(op.Storage) op.Storage
 }
 
 type Bed struct {
@@ -67,6 +70,9 @@ func New(cfg Config) (*Bed, error) {
 	st.MultiTenant = cfg.IssuerFn != nil
 	b := &Bed{Cfg: cfg, Store: st, CryptoKey: sha256.Sum256([]byte("verif-crypto-key")), SignKey: cfg.SignKey}
 	b.Storage = st.With(cfg.Caps)
+	if cfg.WrapStorage != nil {
+		b.Storage = cfg.WrapStorage(b.Storage)
+	}
 	uc := op.UserCodeBase20
 	if cfg.UserCode != nil {
 		uc = *cfg.UserCode
